@@ -258,6 +258,7 @@ func modeRefMerge() error {
 		all[i] = e
 	}
 	siteOpCount = t.siteOps // the merged statistics travel with the merged table
+	siteOpList = t.siteList
 	if err := writeRefPart(*fOut+".table", all, 0, 1, false); err != nil {
 		return err
 	}
@@ -1144,17 +1145,35 @@ func replayPrefix(rf *ReplayFile) error {
 	if err := buildPool(*fRoot, p.Seed, p.Corrupt, p.Churn, p.Large); err != nil {
 		return err
 	}
+	// the plan generator consults the reference table (site statistics): recompute it
+	dir, err := os.MkdirTemp("", "prefix-")
+	if err != nil {
+		return err
+	}
+	defer os.RemoveAll(dir)
+	childArgs := []string{"-root", *fRoot, "-seed", fmt.Sprint(p.Seed), "-corrupt", fmt.Sprint(p.Corrupt), "-churn", fmt.Sprint(p.Churn), "-large", fmt.Sprint(p.Large)}
+	if len(p.Extra) > 0 {
+		ef := filepath.Join(dir, "extra.json")
+		if err := writeJSON(ef, p.Extra); err != nil {
+			return err
+		}
+		childArgs = append(childArgs, "-extra", ef)
+	}
+	refs, err := refsViaChildren(dir, childArgs)
+	if err != nil {
+		return err
+	}
 	n := 0
 	for attempt := 0; attempt < 3; attempt++ {
 		for idx := p.First; idx <= p.Last+20*p.Stride; idx += p.Stride {
 			r := runSeed(p.Seed^0xb0057, idx)
-			plan, _ := genPlan(r, nil)
+			plan, _ := genPlan(r, refs)
 			for ti := range plan.Tasks {
 				for oi := range plan.Tasks[ti].Ops {
 					plan.Tasks[ti].Ops[oi].Scribble = false
 				}
 			}
-			res := execBurst(plan, nil)
+			res := execBurst(plan, refs)
 			n++
 			for _, f := range res.Fails {
 				if f.Oracle != "HARNESS" {
